@@ -693,7 +693,9 @@ pub fn inject_error(rng: &mut Rng, p: &mut Project, src: &str) -> String {
         "unused-tag" => vec!["TXTPP#tag NEVERUSED".into(), "-TXTPP#run printf stored".into()],
         _ => vec!["TXTPP#include .".into()],
     };
-    let at = if lines.is_empty() { 0 } else { rng.range(1, lines.len()) };
+    // at an element boundary (never between a directive and its continuation lines)
+    let starts: Vec<usize> = crate::spec::element_starts(&data).into_iter().filter(|i| *i >= 1).collect();
+    let at = if starts.is_empty() { lines.len() } else { *rng.pick(&starts) };
     let mut guard = vec![];
     // keep the bad lines from being swallowed as continuation of the element before
     guard.push("~".to_string());
